@@ -102,3 +102,4 @@ def run(ctx, R):
     cfrcross.rule_a64(ctx, R)
     cfrcross.rule_rv(ctx, R)
     jitcross.rule_lwexec_a64(ctx, R)
+    rtpreserve.rule_rvv_geninput(ctx, R)
